@@ -19,7 +19,7 @@ KNOWN = "C05-map-variance-prior-mean-not-squared"
 
 
 def bounds(tier):
-    return dict(C_D=SIZES[tier], switches="all 8", modes=["reynolds", "alpha-scalar", "alpha-array"])
+    return dict(C_D=SIZES[tier], switches="all 8", modes=["reynolds", "alpha-scalar in [0,1)", "alpha-array in [0,1)", "alpha = 1"])
 
 
 def sc_map(B, C, D, um, uv, uw, mode, split=False):
@@ -28,11 +28,17 @@ def sc_map(B, C, D, um, uv, uw, mode, split=False):
     if mode == "reynolds":
         r = B.real("r", pos=True)
         m = gmm.GMMMachine(C, trainer="map", ubm=ubm, update_means=um, update_variances=uv, update_weights=uw, map_relevance_factor=r)
+    elif mode == "alpha-one":
+        a = 1.0
+        m = gmm.GMMMachine(C, trainer="map", ubm=ubm, update_means=um, update_variances=uv, update_weights=uw, map_relevance_factor=None, map_alpha=a)
     elif mode == "alpha-scalar":
         a = B.real("alpha", lo=0, hi=1)
+        B.assume(a < 1)  # alpha = 1 exactly is the separate mode "alpha-one"
         m = gmm.GMMMachine(C, trainer="map", ubm=ubm, update_means=um, update_variances=uv, update_weights=uw, map_relevance_factor=None, map_alpha=a)
     else:
         av = B.arr("alpha", (C,), lo=0, hi=1)
+        for c in range(C):
+            B.assume(av[c] < 1)
         m = gmm.GMMMachine(C, trainer="map", ubm=ubm, update_means=um, update_variances=uv, update_weights=uw, map_relevance_factor=None, map_alpha=B.copy(av))
     s, SP = sym_stats(B, C, D, "s")
     n, F, S, t = SP["n"], SP["F"], SP["S"], SP["t"]
@@ -62,7 +68,7 @@ def sc_map(B, C, D, um, uv, uw, mode, split=False):
     # ---- oracle
     if mode == "reynolds":
         al = [n[c] / (n[c] + r) for c in range(C)]
-    elif mode == "alpha-scalar":
+    elif mode in ("alpha-scalar", "alpha-one"):
         al = [a for c in range(C)]
     else:
         al = [av[c] for c in range(C)]
@@ -76,7 +82,7 @@ def sc_map(B, C, D, um, uv, uw, mode, split=False):
     if uw:
         raw = [al[c] * n[c] / t + (1 - al[c]) * w0[c] for c in range(C)]
         tot = total(raw)
-        if B.sym and mode == "reynolds":
+        if B.sym and mode != "alpha-one":
             # each un-normalised weight is positive (alpha < 1 and the prior weight is positive):
             # proved per component, then used to show that the normaliser is not zero
             for c in range(C):
@@ -117,6 +123,6 @@ def job_map(P, C, D, mode):
 def jobs(tier):
     out = []
     for (C, D) in SIZES[tier]:
-        for mode in ("reynolds", "alpha-scalar", "alpha-array"):
+        for mode in ("reynolds", "alpha-scalar", "alpha-array", "alpha-one"):
             out.append(("map@C%dD%d-%s" % (C, D, mode), "job_map", dict(C=C, D=D, mode=mode)))
     return out
